@@ -161,11 +161,15 @@ fn spawn_update_dictionary_with_entry(
     tokio::spawn(async move {
         loop {
             if let Ok(entry) = tx.recv() {
+                #[cfg(chokan_verif)]
+                method::verif_delay("CHOKAN_VERIF_DELAY_UPDATER");
                 {
                     let mut user_pref = user_pref.lock().unwrap();
                     user_pref.user_dictionary_mut().add_entry(entry.clone());
                 }
 
+                #[cfg(chokan_verif)]
+                method::verif_delay("CHOKAN_VERIF_DELAY_UPDATER_DICT");
                 let mut dict = dict.lock().unwrap();
                 let words: Vec<Word> = entry.into();
 
@@ -216,6 +220,8 @@ fn define_module(
     method::make_register_word(&mut module, entry_sender.clone())?;
     method::make_get_proper_candidates_method(&mut module, session_sender.clone())?;
     method::make_get_alphabetic_candidate_method(&mut module)?;
+    #[cfg(chokan_verif)]
+    method::make_verif_dump(&mut module, store.clone())?;
 
     let store_in_thread = store.clone();
     // ここでのthreadは、後始末する必要がない
@@ -223,6 +229,8 @@ fn define_module(
         loop {
             if let Ok(session) = session_receiver.recv() {
                 let (id, candidates, context) = session;
+                #[cfg(chokan_verif)]
+                method::verif_delay("CHOKAN_VERIF_DELAY_RECORDER");
                 store_in_thread
                     .lock()
                     .unwrap()
